@@ -1,5 +1,5 @@
 """Small DSL for mirflow obligations used by props/*.py."""
-from .mirflow import Ev, Arm, FnCheck, Result, origin  # noqa: F401
+from .mirflow import Ev, Arm, FnCheck, PatternError, Result, origin  # noqa: F401
 from .runner import MO  # noqa: F401
 
 
@@ -57,7 +57,11 @@ def allof(*checks):
     def run(F):
         out = []
         for c in checks:
-            r = c(F)
+            try:
+                r = c(F)
+            except PatternError as e:
+                # one sub-check whose pattern no longer matches must not hide what the other sub-checks decide
+                r = Result("inconclusive", "pattern: %s" % e)
             out.extend(r if isinstance(r, list) else [r])
         return out
     return run
